@@ -282,6 +282,16 @@ class Interp:
     def _block(self, s, states, outs, fn, depth):
         if s is None or not states:
             return states
+        parked = [st for st in states if st.flow]
+        if parked:
+            # states that left the current iteration of an unrolled loop
+            # skip everything up to the end of the loop body
+            states = [st for st in states if not st.flow]
+            return self._block1(s, states, outs, fn, depth) + parked \
+                if states else parked
+        return self._block1(s, states, outs, fn, depth)
+
+    def _block1(self, s, states, outs, fn, depth):
         if len(outs) > MAX_OUTCOMES:
             raise AnalysisBroken("abstract interpretation: outcome "
                                  "explosion in " + fn.get("qn", "?"))
@@ -330,6 +340,19 @@ class Interp:
                         self, e, st.env), st.definite, st.path, s.get("l"),
                         fn))
                 return []
+            # a domain may give a call statement an effect on the
+            # environment (e.g. child.accept(*this) overwrites the result)
+            eff = getattr(self.dom, "effect", None)
+            if eff is not None:
+                done = False
+                for st in states:
+                    upd = eff(self, e, st.env)
+                    if upd is not None:
+                        st.env = dict(st.env)
+                        st.env.update(upd)
+                        done = True
+                if done:
+                    return states
             # assignment to a local or to a member of *this
             if e.get("k") in ("bin", "op") and e.get("op") == "=" \
                     and len(e.get("a", ())) == 2:
@@ -342,17 +365,34 @@ class Interp:
                     name = "this." + lhs["m"]
                 if name:
                     keep = []
+                    isb = strip_type(e.get("ot") or "") == "bool"
                     for st in states:
                         st.env = dict(st.env)
                         try:
-                            st.env[name] = self.eval(e["a"][1], st.env,
-                                                     depth)
+                            if isb:
+                                c = self.cond(e["a"][1], st.env, depth)
+                                st.env[name] = c if c is not None \
+                                    else Lazy(e["a"][1], dict(st.env))
+                            else:
+                                st.env[name] = self.eval(e["a"][1], st.env,
+                                                         depth)
                             keep.append(st)
                         except AbsThrow as t:
                             outs.append(Outcome(
                                 "throw", t.value, st.definite and t.definite,
                                 st.path, s.get("l"), fn))
                     return keep
+                return states
+            if e.get("k") == "un" and e.get("op") in ("++", "--") \
+                    and e["a"][0].get("k") == "ref" \
+                    and e["a"][0].get("d") == "local":
+                nm = e["a"][0]["n"]
+                for st in states:
+                    st.env = dict(st.env)
+                    v = st.env.get(nm)
+                    st.env[nm] = v + (1 if e["op"] == "++" else -1) \
+                        if isinstance(v, int) and not isinstance(v, bool) \
+                        else TOP
                 return states
             # a call statement: member calls on *this are inlined for their
             # effect on the members (e.g. error(), check_power())
@@ -363,7 +403,8 @@ class Interp:
                     res = []
                     for st in states:
                         env2 = {k2: v2 for k2, v2 in st.env.items()
-                                if k2 == "this" or k2.startswith("this.")}
+                                if k2 == "this" or k2.startswith("this.")
+                                or k2 == "__iter"}
                         for p, a in zip(g.get("params", ()), e.get("a", ())):
                             try:
                                 env2[p["n"]] = self.eval(a, st.env, depth)
@@ -414,6 +455,40 @@ class Interp:
                             st.env[v["n"]] = val if val is not TOP \
                                 else Lazy(v["i"], st.env)
             return states
+        if k == "forr" and getattr(self, "unroll", 0) \
+                and (s.get("v") or {}).get("n"):
+            # exactly `unroll` iterations (an assumption of the caller): the
+            # loop variable is an opaque per-iteration object and "__iter"
+            # lets the domain key its atoms per iteration
+            var = s["v"]["n"]
+            cur, done = states, []
+            for i in range(self.unroll):
+                nxt = []
+                for st in cur:
+                    st = st.copy()
+                    st.env[var] = ("iter", s.get("l"), i)
+                    st.env["__iter"] = st.env.get("__iter", ()) + (
+                        (s.get("l"), i),)
+                    nxt.append(st)
+                res = self._block(s.get("b"), nxt, outs, fn, depth)
+                cur = []
+                for st in res:
+                    st.env = dict(st.env)
+                    st.env["__iter"] = st.env["__iter"][:-1]
+                    if st.flow == "break":
+                        st.flow = None
+                        done.append(st)
+                    else:
+                        st.flow = None
+                        cur.append(st)
+            return done + cur
+        if k in ("break", "continue") and getattr(self, "unroll", 0):
+            res = []
+            for st in states:
+                st = st.copy()
+                st.flow = k
+                res.append(st)
+            return res
         if k in ("for", "while", "forr", "do", "switch", "try", "goto",
                  "label"):
             # not interpreted: everything after is indefinite; returns
@@ -442,16 +517,19 @@ class Lazy:
 
 
 class State:
-    __slots__ = ("env", "definite", "path")
+    __slots__ = ("env", "definite", "path", "flow")
 
-    def __init__(self, env, definite, path):
+    def __init__(self, env, definite, path, flow=None):
         self.env = env
         self.definite = definite
         self.path = path
+        self.flow = flow            # None | 'break' | 'continue' (only set
+                                    # inside an unrolled loop)
 
     def extend(self, txt, pol, definite):
         return State(self.env, self.definite and definite,
-                     self.path + [(txt, pol)])
+                     self.path + [(txt, pol)], self.flow)
 
     def copy(self):
-        return State(dict(self.env), self.definite, list(self.path))
+        return State(dict(self.env), self.definite, list(self.path),
+                     self.flow)
